@@ -13,6 +13,7 @@ import XpModel.IG
 import XpProofs.Lemmas.IG
 import Mathlib.Algebra.Order.Field.Basic
 import Mathlib.Tactic.Positivity
+import XpProofs.Lemmas.IGSmooth
 
 namespace Xp.IG
 
@@ -239,7 +240,87 @@ theorem ig_gap_cubic_strict_anti (a3 : Rat) (h3 : a3 ≠ 0) (s1 s2 : Nat) (h1 : 
     pow_lt_pow_left₀ e2 (by linarith) (by norm_num)
   linarith
 
+open Finset
+
+/-! ### smooth models: the completeness gap is O(1/(steps−1)²) and vanishes as `steps` grows
+
+  The clause "for smooth models the completeness gap shrinks as steps grows" at full strength: `ψ` is the derivative of the
+  score along the straight path (a C² real function on [0,1], i.e. the score is C³ along the path), `K` bounds `|ψ''|`.
+  The rational model is related to the reals through the casts; the analysis is Mathlib's trapezoidal-rule error bound. -/
+
+theorem ig_gap_smooth (g : Vec → Vec → Vec) (steps : Nat) (hs : 2 ≤ steps) (b : Rat) (x y : Vec)
+    (ψ : ℝ → ℝ) (hc : ContDiffOn ℝ 2 ψ (Set.uIcc (0 : ℝ) 1)) (K : ℝ)
+    (hK : ∀ t, |iteratedDerivWithin 2 ψ (Set.uIcc (0 : ℝ) 1) t| ≤ K)
+    (hdir : ∀ j, j < steps → ((dirDeriv g steps b x y j : ℚ) : ℝ) = ψ ((alpha steps j : ℚ) : ℝ)) :
+    |((sumQ (specOne g steps b x y) : ℚ) : ℝ) - ∫ t in (0 : ℝ)..1, ψ t|
+      ≤ K / (12 * ((steps : ℝ) - 1) ^ 2) := by
+  obtain ⟨n, rfl⟩ : ∃ n, steps = n + 2 := ⟨steps - 2, by omega⟩
+  rw [ig_sum_eq_trapz]
+  have hcast : ((n + 2 : ℕ) : ℝ) - 1 = ((n + 1 : ℕ) : ℝ) := by push_cast; ring
+  have hal : ∀ j : ℕ, ((alpha (n + 2) j : ℚ) : ℝ) = (j : ℝ) / ((n + 1 : ℕ) : ℝ) := by
+    intro j; unfold alpha; push_cast; congr 1; ring
+  have hsum : ((∑ j ∈ range (n + 2 - 1), (dirDeriv g (n + 2) b x y j + dirDeriv g (n + 2) b x y (j + 1)) : ℚ) : ℝ)
+      = ∑ j ∈ range (n + 1), (ψ ((j : ℝ) / ((n + 1 : ℕ) : ℝ)) + ψ (((j + 1 : ℕ) : ℝ) / ((n + 1 : ℕ) : ℝ))) := by
+    rw [show n + 2 - 1 = n + 1 by omega]
+    push_cast
+    apply sum_congr rfl
+    intro j hj
+    have hj' : j < n + 1 := by simpa using hj
+    rw [hdir j (by omega), hdir (j + 1) (by omega), hal, hal]
+    push_cast; rfl
+  rw [Rat.cast_div, Rat.cast_div, hsum]
+  have := Xp.IGSmooth.trapz_gap_real ψ n hc K hK
+  push_cast at this ⊢
+  rw [show ((n : ℝ) + 2 - 1) = (n : ℝ) + 1 by ring]
+  exact this
+
+/-- completeness for smooth models: with `ψ = φ'` the derivative of the score along the path, the attributions sum to
+    `φ 1 − φ 0 = score(x) − score(baseline)` up to `K / (12 (steps−1)²)`, `K` a bound on `|ψ''| = |φ'''|` on the path -/
+theorem ig_gap_smooth_completeness (g : Vec → Vec → Vec) (steps : Nat) (hs : 2 ≤ steps) (b : Rat) (x y : Vec)
+    (φ ψ : ℝ → ℝ) (hφ : ∀ t ∈ Set.uIcc (0 : ℝ) 1, HasDerivAt φ (ψ t) t)
+    (hc : ContDiffOn ℝ 2 ψ (Set.uIcc (0 : ℝ) 1)) (K : ℝ)
+    (hK : ∀ t, |iteratedDerivWithin 2 ψ (Set.uIcc (0 : ℝ) 1) t| ≤ K)
+    (hdir : ∀ j, j < steps → ((dirDeriv g steps b x y j : ℚ) : ℝ) = ψ ((alpha steps j : ℚ) : ℝ)) :
+    |((sumQ (specOne g steps b x y) : ℚ) : ℝ) - (φ 1 - φ 0)| ≤ K / (12 * ((steps : ℝ) - 1) ^ 2) := by
+  rw [← intervalIntegral.integral_eq_sub_of_hasDerivAt hφ (hc.continuousOn.intervalIntegrable)]
+  exact ig_gap_smooth g steps hs b x y ψ hc K hK hdir
+
+/-- the bound vanishes as `steps` grows -/
+theorem ig_gap_bound_vanishes (K ε : ℝ) (hε : 0 < ε) :
+    ∃ S : ℕ, ∀ steps : ℕ, S ≤ steps → K / (12 * ((steps : ℝ) - 1) ^ 2) < ε := by
+  obtain ⟨S, hS⟩ := exists_nat_gt (K / (12 * ε))
+  refine ⟨S + 2, fun steps h => ?_⟩
+  have h1 : (S : ℝ) + 2 ≤ (steps : ℝ) := by exact_mod_cast h
+  have hS0 : (0 : ℝ) ≤ (S : ℝ) := Nat.cast_nonneg S
+  have h2 : (1 : ℝ) ≤ (steps : ℝ) - 1 := by linarith
+  have h3 : (steps : ℝ) - 1 ≤ ((steps : ℝ) - 1) ^ 2 := by nlinarith
+  have hpos : (0 : ℝ) < 12 * ((steps : ℝ) - 1) ^ 2 := by positivity
+  rw [div_lt_iff₀ hpos]
+  have h4 : K < 12 * ε * (S : ℝ) := by
+    have := (div_lt_iff₀ (by positivity : (0 : ℝ) < 12 * ε)).mp hS
+    linarith
+  have h5 : (S : ℝ) ≤ ((steps : ℝ) - 1) ^ 2 := by linarith
+  nlinarith
+
+
 /-! ### non-vacuity -/
+
+-- a non-constant C² derivative along the path (score Σ x_d², ψ(t) = 8t + 4, K = 0) meets the hypotheses of `ig_gap_smooth`
+example : ∃ (ψ : ℝ → ℝ) (K : ℝ), ContDiffOn ℝ 2 ψ (Set.uIcc (0 : ℝ) 1)
+    ∧ (∀ t, |iteratedDerivWithin 2 ψ (Set.uIcc (0 : ℝ) 1) t| ≤ K)
+    ∧ ∀ j, j < 5 → ((dirDeriv (fun p _ => p.map (2 * ·)) 5 1 [1, 3] [] j : ℚ) : ℝ) = ψ ((alpha 5 j : ℚ) : ℝ) := by
+  refine ⟨fun t => 8 * t + 4, 0, by fun_prop, ?_, ?_⟩
+  · intro t
+    by_cases ht : t ∈ Set.uIcc (0 : ℝ) 1
+    · have hu : UniqueDiffOn ℝ (Set.uIcc (0 : ℝ) 1) := uniqueDiffOn_uIcc (by norm_num)
+      rw [iteratedDerivWithin_eq_iteratedDeriv hu (by fun_prop) ht]
+      simp [iteratedDeriv_succ]
+    · rw [iteratedDerivWithin_succ, derivWithin_zero_of_notMem_closure (by rwa [Set.uIcc, closure_Icc])]
+      simp
+  · intro j _
+    simp [dirDeriv, interp, alpha, List.range_succ, sumQ]
+    ring
+
 
 -- score Σ x_d² (gradient 2x), baseline 1, x = (1, 3): φ(t) = 4 t² + 4 t + 2 along the path
 example : ∀ j, j < 5 → dirDeriv (fun p _ => p.map (2 * ·)) 5 1 [1, 3] [] j = 2 * 4 * alpha 5 j + 4 := by
